@@ -28,7 +28,7 @@ for l in m.stdout.splitlines():
         cur = mm.group(1)
         if mm.group(3) == "FIRED": fired[cur] = []
         if mm.group(3) == "ERROR": errors.append(cur)
-    mm = re.match(r"\s+rule=(\S+) key=(.*?) at (\S+)", l)
+    mm = re.match(r"\s+rule=(\S+) key=(.*?) at (\S*)", l)
     if mm and cur in fired:
         fired[cur].append({"rule": mm.group(1), "key": mm.group(2), "at": mm.group(3)})
 meta = {
